@@ -462,20 +462,17 @@ def merge_projections(arr):
         return arr
     if len(arr) == 1 or not has_none(arr[0]):
         return arr[0]
-    sparse_fa = np.copy(arr[0])
-    i = 0
-    k = 1
-    while i < len(sparse_fa) and k < len(arr):
-        fa = arr[k]
+    # Every later layer fills the holes that are still open, left to right; a hole in
+    # that layer (None) leaves the position open for the layers after it.
+    sparse_fa = list(arr[0])
+    for fa in arr[1:]:
+        i = 0
         j = 0
         while i < len(sparse_fa) and j < len(fa):
             if sparse_fa[i] is None:
                 sparse_fa[i] = fa[j]
                 j += 1
-                while j < len(fa) and safe_eq(fa[j], None):
-                    j += 1
             i += 1
-        k += 1
     return sparse_fa
 
 
